@@ -50,6 +50,8 @@ KINDS = {
     "var_chained": lambda: Item("var_chained", [("color", "var(--u)", False)], needs=("--t", "--u")),
     "var_fallback_defined": lambda: Item("var_fallback_defined", [("color", "var(--t, #767676)", False)], needs=("--t",)),
     "var_undefined_fallback": lambda: Item("var_undefined_fallback", [("color", "var(--undefined, #777)", False)]),
+    "var_undefined_fallback_then_more": lambda: Item("var_undefined_fallback_then_more", [("color", "var(--undefined, #888)", False), ("margin", "0 auto", True), ("border", "1px solid #8a8a8a", False)]),
+    "var_t_then_more": lambda: Item("var_t_then_more", [("color", "var(--t)", False), ("margin", "0 auto", False)], needs=("--t",)),
     "var_undefined": lambda: Item("var_undefined", [("color", "var(--nope)", False)]),
     "var_html": lambda: Item("var_html", [("color", "var(--h)", False)], needs=("--h",)),
     "var_readable": lambda: Item("var_readable", [("color", "var(--ok)", False)], needs=("--ok",)),
